@@ -286,10 +286,26 @@ func c06CSV(c *core.Ctx, v2 bool) {
 		headerMode := r.Intn(6) // 0,1: none; 2,3: matching header; 4: mismatching; 5: short header
 		line := 0
 		if headerMode >= 2 {
+			// lines the reader has to skip: plain ones, an empty line followed by a plain one, a quoted field that spans two lines (row
+			// indexes count physical lines)
+			skipped := func(what string, i int) {
+				switch r.Intn(4) {
+				case 0:
+					sb.WriteString(nl())
+					line++
+					c.Inc("skipped_region:empty_line")
+				case 1:
+					sb.WriteString("\"" + what + nl() + "continued\"" + delim + "x" + nl())
+					line += 2
+					c.Inc("skipped_region:quoted_field_spanning_lines")
+					return
+				}
+				sb.WriteString(what + " " + fmt.Sprint(i) + nl())
+				line++
+			}
 			pre := r.Intn(3)
 			for i := 0; i < pre; i++ {
-				sb.WriteString("preamble " + fmt.Sprint(i) + nl())
-				line++
+				skipped("preamble", i)
 			}
 			var hcells []string
 			for _, col := range cols {
@@ -317,10 +333,9 @@ func c06CSV(c *core.Ctx, v2 bool) {
 			sb.WriteString(gen.EncodeCSVRow(r, hcells, delim) + nl())
 			line++
 			fd["header_row_index"] = line
-			gap := r.Intn(2)
+			gap := r.Intn(3)
 			for i := 0; i < gap; i++ {
-				sb.WriteString("between header and data" + nl())
-				line++
+				skipped("between header and data", i)
 			}
 			fd["data_row_index"] = line + 1
 		}
